@@ -76,7 +76,16 @@ def r21_1(ctx):
     cfg2 = cfg_of(ctx, cc)
     ok = any(dotted(n.exc.func if isinstance(n.exc, ast.Call) else n.exc) == "NotImplementedError" and any(pol and unparse(t) == "dangling" for t, pol in cfg2.guards(n)) for n in raises)
     dang = [s for s in body_walk(cc.node) if isinstance(s, ast.Assign) and unparse(s.targets[0]) == "dangling"]
-    shape = bool(dang) and "- produced" in unparse(dang[0].value) and "r[4]" in unparse(dang[0].value)
+    # (dependencies named by some record) minus (keys produced by some record): locals looked through, names free
+    from ..dataflow import Defs as _Defs
+    from ..refguards import _inline
+
+    shape = False
+    if dang:
+        v = _inline(dang[0].value, _Defs(cc.node))
+        if isinstance(v, ast.BinOp) and isinstance(v.op, ast.Sub):
+            left, right = unparse(v.left), unparse(v.right)
+            shape = "[4]" in left and "[0]" in right and "[4]" not in right
     rr.inst(site(cc), raises_not_implemented_on_dangling=ok, dangling=unparse(dang[0].value) if dang else None)
     if not ok or not shape:
         ctx.finding(rr, site(cc), "_check_complete no longer raises NotImplementedError when some record's dependency is produced by no record", func=cc)
@@ -232,12 +241,15 @@ def r21_4(ctx):
 
 
 def r21_5(ctx):
-    rr = RuleResult("R21.5", "COVER", "every key leaving graph_records.py is normalised with _norm_key or is the counter-based '<parent>-subN' key", min_instances=6)
+    rr = RuleResult("R21.5", "COVER", "every key leaving graph_records.py is normalised with _norm_key or is the counter-based '<parent>-subN' key", min_instances=4)
     gm = ctx.repo.mod("dask_array._frisky.graph_records")
     from ..dataflow import Defs
 
-    for fq in ("_Flattener.resolve", "_records"):
-        f = gm.func(fq)
+    # every function of the module that emits a reference (the two translators and whatever helpers they share)
+    need("_Flattener.resolve" in gm.functions and "_records" in gm.functions, "graph_records._Flattener.resolve / _records")
+    for f in gm.functions.values():
+        if f.parent is not None or not any(isinstance(n, ast.Call) and dotted(n.func) == "TaskRef" for n in body_walk(f.node)):
+            continue
         defs = Defs(f.node)
 
         cfgf = cfg_of(ctx, f)
